@@ -340,7 +340,12 @@ impl Prop for C01 {
                     _ => (crate::gen::program::print_sass(&prog).text, Syntax::Sass),
                 };
                 c.syntax = syntax;
-                let bounded = ops.is_empty();
+                // loop counts are bounded by construction, data growth is not (`$s: $s + $s` in a mixin
+                // included 25 times asks for 4^25 bytes - thorough-tier false alarm): a SassScript
+                // program counts as bounded only if the reference interpreter runs it to the end
+                // within its step / string-size / number-range budgets
+                let in_budget = k % 5 < 3 || !matches!(crate::oracle::interp::Interp::run(&prog), Err((crate::oracle::interp::Stop::OutOfDomain(_), _)));
+                let bounded = ops.is_empty() && in_budget;
                 let mut case = mk("G3-program", apply_mutations(&text, &ops), c);
                 case.bounded = bounded;
                 case
